@@ -226,6 +226,65 @@ func runGated(c gatedCase) error {
 		}
 
 		return exactly(&h0, 1, "Do whose response arrived during the write")
+	case "do-returns-only-after-callback-finished", "do-returns-only-after-callback-finished-early-response":
+		// Do must not return while its callback is still running - also when the response is
+		// dispatched before Do has started to wait
+		early := c.Name != "do-returns-only-after-callback-finished"
+		entered, release := make(chan struct{}), make(chan struct{})
+		if early {
+			w.Conn.AfterWrite = func(b []byte, err error) {
+				if err == nil && len(b) >= 20 && b[19] == 0 {
+					w.Conn.AfterWrite = nil
+					w.Conn.Enqueue(response(0, 1, 0))
+					select { // let the reader run the callback while Do is still inside its write
+					case <-entered:
+					case <-time.After(2 * time.Second):
+					}
+				}
+			}
+		}
+		done := make(chan error, 1)
+		go func() {
+			done <- w.Client.Do(request(0, 28), func(e stun.Event) {
+				h0.handler()(e)
+				close(entered)
+				<-release
+			})
+		}()
+		if !early {
+			w.Conn.WaitReaderParked(5 * time.Second)
+			time.Sleep(time.Millisecond)
+			w.Conn.Enqueue(response(0, 1, 0))
+		}
+		select {
+		case <-entered:
+		case err := <-done:
+			close(release)
+
+			return fmt.Errorf("Do returned %v before its callback was invoked", err)
+		case <-time.After(30 * time.Second):
+			close(release)
+
+			return fmt.Errorf("callback of Do not invoked within 30 s")
+		}
+		select {
+		case err := <-done:
+			close(release)
+
+			return fmt.Errorf("Do returned (%v) while its callback was still running", err)
+		case <-time.After(30 * time.Millisecond):
+		}
+		close(release)
+		select {
+		case err := <-done:
+			if err != nil {
+				return fmt.Errorf("Do returned %v", err)
+			}
+		case <-time.After(30 * time.Second):
+			return fmt.Errorf("Do did not return within 30 s after its callback finished")
+		}
+
+		return exactly(&h0, 1, "Do with a slow callback")
 	case "write-error-in-start-while-closing":
 		// the first write fails and Close runs before Start cleans up
 		w.Conn.FailWritesFor(txID(0), 1)
@@ -254,6 +313,7 @@ var gatedNames = []string{
 	"close-inside-start-before-agent-registration", "close-between-registration-and-first-write",
 	"response-while-retransmission-write-parked", "failing-retransmission-write-racing-response",
 	"two-closes-second-during-agent-close", "do-response-processed-before-wait", "write-error-in-start-while-closing",
+	"do-returns-only-after-callback-finished", "do-returns-only-after-callback-finished-early-response",
 }
 
 func TestC10_Gated(t *testing.T) {
